@@ -29,6 +29,7 @@ GNext == IF Mode = "accessors" THEN \E acc \in Accessors : Call(1, acc) /\ h' = 
          ELSE IF Mode = "schedules" THEN \E t \in Threads : AnyStep(t) /\ h' = Append(h, TIndex(t))
          ELSE \/ \E k \in 1..Len(InputList) : Construct(InputList[k]) /\ h' = Append(h, <<"new", k>>)
               \/ \E kind \in EntryPoints : EntryPoint(kind) /\ h' = Append(h, <<"entry", kind>>)
+              \/ \E o \in 1..MaxObjs : Copy(o) /\ h' = Append(h, <<"copy", o>>)
               \/ \E o \in 1..MaxObjs, acc \in {"scores","clean","rh","json_sm","mutate_json","hash","internals"} : Call(o, acc) /\ h' = Append(h, <<"call", o, acc>>)
 GSpec == GInit /\ [][GNext]_gvars
 Complete == IF Mode = "schedules" THEN \A t \in Threads : thr[t].pc = 0 ELSE h # <<>>
